@@ -47,6 +47,9 @@ def run(ctx):
         for r in range(reps):
             n = int(rs.randint(2, 8)); K = int(rs.randint(2, 6))
             kind = ["soft", "onehot", "mixed", "zeros", "sharp", "near_uniform"][r % 6]
+            if r % 3 == 0:
+                n = K       # square predictions: as many samples as clusters (a layout guessed from the shape cannot tell P from P.T there)
+                ctx.count("square_P")
             P = closed_P(rs, n, K, kind)
             A = None
             if cls == "mmd":
